@@ -167,4 +167,21 @@ CLAIMS['C13'] = {
             'by the number of methods, not by the number of requests; argued, not proved); user callables (methods, '
             'middlewares, error handlers) may retain what they like',
 }
+CLAIMS['C04'] = {
+    'text': 'Method.bind, BaseValidator.validate_method and BaseValidator.bind are proved against contracts in which '
+            'inspect.Signature.bind IS the specification of a direct call (uninterpreted sig_binds / bound_args over the '
+            'CONTENT of the positional and named arguments): the client params go to it unchanged (array -> positional, '
+            'object -> named, nothing else); ValidationError (-> -32602, method not run) is raised exactly when that binding '
+            'fails; the context name is excluded from the signature the client binds against, so it is not among the bound '
+            'arguments, and the context is injected after binding (by name, overriding anything, or as the single positional '
+            'argument); the returned callable is functools.partial(the registered function, [context], **exactly the bound '
+            'arguments [+ context]).',
+    'note': 'assumed: the inspect model (pyvc/engine_inspect.py), BaseValidator.signature (filter loop + lru_cache; contract '
+            'assumed), functools.partial(f, **bound.arguments)() == the direct call for signatures of plain parameters - all '
+            'three exercised by the bounded stand-in method_binding_vs_direct_call (952 cases, exhaustive over its corpus, '
+            'labelled bounded); ViewMethod.bind (context through the view constructor) is not under contract; the '
+            'dispatcher proofs (C01-C03) use the abstract MethodBind contract whose uninterpreted binds() this one defines '
+            '(refinement argued in DESIGN, not machine-checked). KNOWN FINDING (not repaired): methods with positional-only, '
+            '*args or **kwargs parameters do not receive the direct-call arguments (known_findings.json)',
+}
 NOT_CLAIMED = {}
